@@ -312,6 +312,24 @@ def class_blind(ctx, chk, ci):
                 p = parents.get(n)
                 lookup = (isinstance(p, ast.Call) and isinstance(p.func, ast.Name) and p.func.id == "getattr" and p.args and p.args[0] is n) or \
                          (isinstance(p, ast.Attribute) and p.value is n and p.attr not in ("__name__", "__qualname__"))
+                if not lookup and isinstance(p, ast.Call) and n in p.args:
+                    # type(self) handed to a package helper that only does name lookups on it (`_resolve_metric(type(self), metric)`)
+                    fn_ = p.func
+                    hname = fn_.id if isinstance(fn_, ast.Name) else fn_.attr if isinstance(fn_, ast.Attribute) else None
+                    helper = None
+                    for g in ctx.db.all_functions():
+                        if g.name == hname and (g.cls is None or g.cls in sci.mro()):
+                            helper = g
+                            break
+                    if helper is not None:
+                        hp = [a_.arg for a_ in helper.node.args.args if a_.arg not in ("self", "cls")]
+                        idx = p.args.index(n)
+                        if idx < len(hp):
+                            pn = hp[idx]
+                            hparents = {c_: n_ for n_ in ast.walk(helper.node) for c_ in ast.iter_child_nodes(n_)}
+                            uses = [x for x in ast.walk(helper.node) if isinstance(x, ast.Name) and x.id == pn and isinstance(x.ctx, ast.Load)]
+                            lookup = bool(uses) and all(isinstance(hparents.get(x), ast.Call) and isinstance(hparents[x].func, ast.Name) and hparents[x].func.id == "getattr"
+                                                        and hparents[x].args and hparents[x].args[0] is x for x in uses)
                 if not lookup:
                     sens = ast.unparse(p if p is not None else n)
             elif isinstance(n, ast.Attribute) and n.attr == "__class__":
